@@ -150,7 +150,7 @@ def _f9(case, failure):
     return case.get('solver') == 'MD' and failure['kind'] in ('invalid_answer', 'disagree', 'incoherent') and mp >= 1e12
 
 
-FINDINGS = {}  # F9 was repaired in /repo (e82a2ef); its witness stays as a regression case
+FINDINGS = {}  # F9 was repaired in /repo (9ea056c); its witness stays as a regression case
 
 
 def fixed_cases(tier):
